@@ -404,6 +404,7 @@ func runC19(c *Ctx) {
 	if nctor == 0 {
 		c.undecided("C19.pool.pair-fixed", nil, "constructor of bufferedTextHandler", nil, "no field initialisation found in newBufferedTextHandler")
 	}
+	poolNewFresh(c, "C19", []string{"logutil/slogutil"}, 1)
 	// ---- R6 ----
 	if mk != nil {
 		lvl := mk.Params[0]
@@ -514,6 +515,28 @@ func runC19(c *Ctx) {
 			okAdd = ok && name == "textAttrs" && base == recv
 		}
 		c.check(okAdd, "C19.message", h, "r.AddAttrs(h.textAttrs...) before the text is rendered", add, "accumulated attributes are appended to every record")
+		// the record rendered is the record received: the cell AddAttrs works on
+		// holds the parameter r and is what TextHandler.Handle gets (a rebuilt
+		// record loses the source location, and anything added to slog.Record later)
+		okRec := false
+		if add != nil && th != nil && len(h.Params) >= 3 {
+			cell, isAl := add.Call.Args[0].(*ssa.Alloc)
+			if isAl {
+				inits := 0
+				fromParam := false
+				for _, r := range core.Refs(cell) {
+					if st, isSt := r.(*ssa.Store); isSt && st.Addr == ssa.Value(cell) {
+						inits++
+						fromParam = st.Val == ssa.Value(h.Params[2])
+					}
+				}
+				if ld, isLd := th.Call.Args[2].(*ssa.UnOp); isLd && ld.Op == token.MUL && ld.X == ssa.Value(cell) && inits == 1 && fromParam {
+					okRec = true
+				}
+			}
+		}
+		c.check(okRec, "C19.message", h, "the text handler renders the received record r itself (after AddAttrs)", th,
+			"the message must be exactly the line slog.TextHandler prints for that record (time, level, source, message, attributes)")
 	}
 }
 
